@@ -37,6 +37,14 @@ SPECS["C10"] = dict(
              params=dict(quick=dict(blocks=2, maxsize=3, tokens=2), thorough=dict(blocks=3, maxsize=4, tokens=3)), witnesses=["done", "file-of-several-ranges"]),
         dict(name="load-reject", pkg="sdk/go/arvados", harness=C10_AH, entry="GosymH_C10_load_reject", params=dict(quick=dict(blocks=1), thorough=dict(blocks=2)), witnesses=["done", "accepted", "rejected"]),
         dict(name="pdh", pkg="sdk/go/arvados", harness=C10_AH, entry="GosymH_C10_pdh", witnesses=["done"]),
+        dict(name="python-ranges", kind="crosshair", file="pycheck/c10_ranges.py", subject="sdk/python/arvados/_ranges.py", subject_env="PYCHECK_RANGES",
+             pkg="sdk/python/arvados", entry="pycheck_c10_ranges", harness=[], replay="cpython",
+             params=dict(quick=dict(maxsize=6, maxsize_rr=2), thorough=dict(maxsize=12, maxsize_rr=3)),
+             witnesses=["check_first_block", "check_locators_and_ranges", "check_replace_range"]),
+        dict(name="mutate", pkg="sdk/go/manifest", harness=C10_H, entry="GosymH_C10_mutate",
+             params=dict(quick=dict(maxlen=2), thorough=dict(maxlen=4)), witnesses=["done", "accepted", "rejected"]),
+        dict(name="load-mutate", pkg="sdk/go/arvados", harness=C10_AH, entry="GosymH_C10_load_mutate",
+             params=dict(quick=dict(maxlen=2), thorough=dict(maxlen=4)), witnesses=["done", "accepted", "rejected"]),
         dict(name="extract", pkg="sdk/go/manifest", harness=C10_H, entry="GosymH_C10_extract",
              params=dict(quick={"maxsize": 2, "symbolic-bystander": 0}, thorough={"maxsize": 2, "symbolic-bystander": 1}), witnesses=["done"]),
     ],
